@@ -403,7 +403,7 @@ class Rejection:
 
 
 def validate_trace(spec_dir, module, cfg, trace_path, workdir_, shards=NCPU, env=None, timeout=900, max_rejections=4,
-                   tag="t"):
+                   tag="t", known=None, stateless=False, max_known=150):
     """Validate a recorded ndjson trace (many executions separated by Reset events) against a trace
     specification.  Returns (n_executions, n_events, [Rejection]).  A rejection is only reported if a
     second TLC run repeats it (DESIGN 1.5)."""
@@ -427,6 +427,8 @@ def validate_trace(spec_dir, module, cfg, trace_path, workdir_, shards=NCPU, env
 
     def work(idx):
         rej = []
+        knownrej = []
+        nknown = [0]
         todo = parts[idx]
         rnd = 0
         while todo and len(rej) < max_rejections:
@@ -465,13 +467,23 @@ def validate_trace(spec_dir, module, cfg, trace_path, workdir_, shards=NCPU, env
             if r2.error:
                 raise MachineryError("trace validation (confirm) %s: %s" % (module, r2.error))
             if r2.exit != 0:
-                rej.append(Rejection(idx, exn, off, exn[off], r.violation or "trace not accepted", rp))
+                rj = Rejection(idx, exn, off, exn[off], r.violation or "trace not accepted", rp)
+                rj.known = known(exn[off], exn) if known else None
+                if rj.known:
+                    nknown[0] += 1
+                    knownrej.append(rj)
+                else:
+                    rej.append(rj)
             else:
                 raise MachineryError("rejection not repeatable on isolated execution (module %s, file %s, event %d)"
                                      % (module, p, bad))
-            todo = todo[k + 1:]
+            if stateless and off + 1 < len(exn) and (rj.known is None or nknown[0] < max_known):
+                # events are independent of each other: go on behind the rejected event of the same execution
+                todo = [[exn[0]] + exn[off + 1:]] + todo[k + 1:]
+            else:
+                todo = todo[k + 1:]
             rnd += 1
-        return rej
+        return rej + knownrej
 
     rejections = []
     with concurrent.futures.ThreadPoolExecutor(len(parts)) as ex:
@@ -499,15 +511,25 @@ def load_findings(prop):
     return res
 
 
-def match_finding(findings, event_json):
-    """A finding has 'match': a python expression over the rejected event `ev` (dict)."""
+def match_finding(findings, event_json, execution=None):
+    """A finding has 'match': a python expression over the rejected event `ev` (dict), the configuration `cfg`
+    of its execution (from the Reset line, if it has one) and the predicates of tools/finding_helpers.py."""
+    import finding_helpers
     try:
         ev = json.loads(event_json)
     except Exception:
         return None
+    cfg = None
+    try:
+        if execution:
+            cfg = json.loads(execution[0]).get("cfg")
+    except Exception:
+        cfg = None
+    env = {"ev": ev, "cfg": cfg, "len": len, "any": any, "all": all}
+    env.update({k: v for k, v in vars(finding_helpers).items() if callable(v) and not k.startswith("_")})
     for fd in findings:
         try:
-            if eval(fd["match"], {"__builtins__": {}}, {"ev": ev, "len": len, "any": any, "all": all}):
+            if eval(fd["match"], {"__builtins__": {}}, env):
                 return fd
         except Exception:
             continue
@@ -563,10 +585,11 @@ class Check:
         return r, edges
 
     # -- R/T --
-    def validate(self, spec_dir, module, cfg, trace_path, tag, env=None, shards=NCPU, timeout=900):
+    def validate(self, spec_dir, module, cfg, trace_path, tag, env=None, shards=NCPU, timeout=900, stateless=False):
         t0 = time.time()
         n_exec, n_ev, rej = validate_trace(spec_dir, module, cfg, trace_path, self.wd, shards=shards, env=env,
-                                           timeout=timeout, tag=tag)
+                                           timeout=timeout, tag=tag, stateless=stateless,
+                                           known=lambda e, x: match_finding(self.findings, e, x))
         self.traces += n_exec
         self.events += n_ev
         self.evaluations += n_ev
@@ -584,7 +607,7 @@ class Check:
                 except Exception:
                     self.samples.append({"from": tag, "event_raw": ln[:500]})
         for r in rej:
-            fd = match_finding(self.findings, r.event)
+            fd = getattr(r, "known", None)
             if fd:
                 self.known.append(fd)
             else:
